@@ -10,7 +10,7 @@ from . import common
 DEFAULTS = {'px': -1, 'ok': 'true', 'ndir': 0, 'inline': False, 'skip': False, 'nreq': 0, 'gskip': False, 'gnreq': 0, 'noverlay': 0,
             'haswant': False, 'ignore_want': False, 'res': False, 'exc': 'none', 'restored': True, 'swapped': True, 'base': False, 'nun': 0,
             'passed': False, 'failed': False, 'skipped': False, 'nparts': 0, 'nskipped': 0, 'nlogged': 0, 'kind': 'return',
-            'on_error': 'return', 'mode': 'native', 'ns_empty': True, 'has_exc': False, 'failed_px': -1}
+            'on_error': 'return', 'mode': 'native', 'ns_empty': True, 'has_exc': False, 'failed_px': -1, 'internal': False}
 KEEP = ['e', 'run'] + sorted(DEFAULTS)
 
 
@@ -60,7 +60,7 @@ def load_runs(trace_prefix):
 CFG = 'SPECIFICATION Spec\nPOSTCONDITION TraceAccepted\nCHECK_DEADLOCK FALSE\n'
 
 
-def validate(out, runs, label, max_rounds=12):
+def validate(out, runs, label, max_rounds=12, spec='DocRunTrace'):
     """TLC over the concatenation of the runs; a rejected run is reported and removed, the rest is checked again"""
     total_events = sum(len(r) for r in runs)
     remaining = list(runs)
@@ -74,7 +74,7 @@ def validate(out, runs, label, max_rounds=12):
             for r in remaining:
                 for ev in r:
                     f.write(json.dumps(ev) + '\n')
-        res = common.run_tlc('DocRunTrace', CFG, workers=1, env={'TRACE_FILE': path}, timeout=1800, deque=True)
+        res = common.run_tlc(spec, CFG, workers=1, env={'TRACE_FILE': path}, timeout=1800, deque=True)
         out.add_tlc(res, 'trace:%s round %d' % (label, rounds))
         matched = None
         for line in res.stdout.splitlines():
@@ -103,10 +103,52 @@ def validate(out, runs, label, max_rounds=12):
     out.traces += len(runs)
     for r, at in rejected:
         ev = r[at]
-        out.violation({'kind': 'trace_rejected', 'event': ev['e']},
+        out.violation({'kind': 'trace_rejected' if spec == 'DocRunTrace' else 'session_trace_rejected', 'event': ev['e']},
                       {'rejected_event_index': at, 'rejected_event': ev, 'events_of_the_run': r[:at + 1][-14:],
-                       'explanation': 'the recorded execution is not a behaviour of DocRunTrace.tla: no action of the trace specification is enabled for this event in the state reached by the preceding events'})
+                       'explanation': 'the recorded execution is not a behaviour of ' + spec + '.tla: no action of the trace specification is enabled for this event in the state reached by the preceding events'})
     return len(rejected)
+
+
+SESS_DEFAULTS = {'cmd': 'none', 'i': 0, 'disabled': False, 'named': False, 'idxs': [], 'outcome': 'none', 'nP': 0, 'nF': 0, 'nS': 0, 'nT': 0, 'failed': [],
+                 'kind': 'return', 'exc': 'none', 'action': 'none', 'nfailed': -1, 'code': -1}
+
+
+def load_sessions(trace_prefix):
+    """-> list of sessions (SessEnter .. SessExit [MainExit]), each a list of normalised events"""
+    sessions = {}
+    order = []
+    for path in sorted(glob.glob(trace_prefix + '-sess.*')):
+        with open(path) as f:
+            for line in f:
+                try:
+                    ev = json.loads(line)
+                except ValueError:
+                    continue
+                sid = ev['sess']
+                if sid not in sessions:
+                    sessions[sid] = []
+                    order.append(sid)
+                rec = {'e': ev['e']}
+                for k, dflt in SESS_DEFAULTS.items():
+                    rec[k] = ev.get(k, dflt)
+                sessions[sid].append(rec)
+    out = []
+    incomplete = 0
+    for sid in order:
+        evs = sessions[sid]
+        if evs and evs[0]['e'] == 'SessEnter' and evs[-1]['e'] in ('SessExit', 'MainExit'):
+            out.append(evs)
+        else:
+            incomplete += 1
+    return out, incomplete
+
+
+def validate_sessions(out, prefix, label, minimum=1):
+    sessions, incomplete = load_sessions(prefix)
+    if len(sessions) < minimum:
+        raise common.MachineryError('session trace recording (%s) produced only %d sessions' % (label, len(sessions)))
+    out.extra['session_trace_incomplete[%s]' % label] = incomplete
+    return validate(out, sessions, 'sessions:' + label, spec='SessionTrace')
 
 
 def record_library_doctests(prefix, modules, timeout=900):
